@@ -18,8 +18,10 @@
                [sum((a - c[i])**2) / (2 * n * var)]
      Homma:    [(var - (1/n) * sum(a * c[i]) + mu_a**2) / var]
      Janon:    mu_ac[i] = (1/n) * sum(a + c[i]) / 2
-               var[i]   = (1/(n - 1)) * sum(a**2 + c[i]**2) / 2 - mu_ac[i]**2
+               var[i]   = (1/n) * sum(a**2 + c[i]**2) / 2 - mu_ac[i]**2
                [1 - ((1/n) * sum(a * c[i]) - mu_ac[i]**2) / var[i]]
+               (before the fix "Janon estimator normalises the second moment by 1/N as published" the code had
+                var[i] = (1/(n - 1)) * sum(...) / 2 - mu_ac[i]**2: kept below as [janon_orig], record of the defect)
      Glen:     mu_a = mean(a); mu_c[i] = mean(c[i]); var_a = np.var(a); var_c[i] = np.var(c[i])   (population)
                [1 - (1/(n - 1) * sum((a - mu_a) * (c[i] - mu_c[i])) / (var_a * var_c[i])**0.5)]
      Saltelli: [1 - ((1/n) * sum(a * c[i]) - mu_a**2) / var]
@@ -42,8 +44,9 @@
         width = np.percentile(Y, 50);  post_process(score) = transpose(score.reshape(g, g, 1), (1, 0, 2))
    gsa_attribution_method.py
      __init__: self.masks = sampler(grid_size**2, nb_design).reshape((-1, g, g, 1))
-     explain: for (inp, target):  perturbator = perturbation_function(inp); outputs = []
-                for batch_masks in batch_tensor(self.masks, self.batch_size):
+     explain: batch_size = self.batch_size or len(self.masks)
+              for (inp, target):  perturbator = perturbation_function(inp); outputs = []
+                for batch_masks in batch_tensor(self.masks, batch_size):
                     up = tf.image.resize(batch_masks, (H, W), "nearest"); px = perturbator(up)
                     outputs ++= inference_function(model, px, repeat_labels(target, len(batch_masks)))
                 heatmap = estimator(self.masks, outputs, nb_design);  then bicubic resize (library: not modelled)
@@ -127,6 +130,14 @@ Definition homma (outputs : list Qc) (n d : nat) : list Qc :=
   map (fun i => (var - (1 / qn n) * qsum (vmul a (nth i c [])) + sq mu_a) / var) (seq 0 d).
 
 Definition janon (outputs : list Qc) (n d : nat) : list Qc :=
+  let '(a, _, c) := split_abc outputs n d in
+  let mu_ac := map (fun i => (1 / qn n) * qsum (vadd a (nth i c [])) / two) (seq 0 d) in
+  let var := map (fun i => (1 / qn n) * qsum (vadd (map sq a) (map sq (nth i c []))) / two
+                           - sq (nthq mu_ac i)) (seq 0 d) in
+  map (fun i => 1 - ((1 / qn n) * qsum (vmul a (nth i c [])) - sq (nthq mu_ac i)) / nthq var i) (seq 0 d).
+
+(* the transcription of the code BEFORE the fix: second moment normalised by 1/(n - 1) *)
+Definition janon_orig (outputs : list Qc) (n d : nat) : list Qc :=
   let '(a, _, c) := split_abc outputs n d in
   let mu_ac := map (fun i => (1 / qn n) * qsum (vadd a (nth i c [])) / two) (seq 0 d) in
   let var := map (fun i => (1 / (qn n - 1)) * qsum (vadd (map sq a) (map sq (nth i c []))) / two
@@ -243,26 +254,30 @@ Variable score : list Qc -> list Qc -> Qc.          (* model + operator, row-wis
 Variable estimator : list Qc -> list Qc.            (* estimator(self.masks, . , nb_design) *)
 
 (* the model outputs, mask batch after mask batch *)
-Definition gsa_outputs (p : perturbation) (g H W C bs : nat) (masks : list (list Qc)) (x t : list Qc) : list Qc :=
+(* bs : self.batch_size, None allowed: batch_size = self.batch_size or len(self.masks) *)
+Definition gsa_outputs (p : perturbation) (g H W C : nat) (bs : option nat) (masks : list (list Qc))
+  (x t : list Qc) : list Qc :=
   fold_left (fun outputs bm => outputs ++ map (fun m => score (perturb p g H W C x m) t) bm)
-            (chunks bs masks) [].
+            (chunks (eff_bs bs (length masks)) masks) [].
 
-Definition gsa_explain_one (p : perturbation) (g H W C bs : nat) (masks : list (list Qc)) (x t : list Qc)
+Definition gsa_explain_one (p : perturbation) (g H W C : nat) (bs : option nat) (masks : list (list Qc)) (x t : list Qc)
   : list Qc := estimator (gsa_outputs p g H W C bs masks x t).
 
 (* perturbation function of the input: inpainting / blurring need the baseline of THIS input *)
-Definition gsa_explain (pf : list Qc -> perturbation) (g H W C bs : nat) (masks : list (list Qc))
+Definition gsa_explain (pf : list Qc -> perturbation) (g H W C : nat) (bs : option nat) (masks : list (list Qc))
   (xs ts : list (list Qc)) : list (list Qc) :=
   map2 (fun x t => gsa_explain_one (pf x) g H W C bs masks x t) xs ts.
 End Explain.
 
 (* SobolAttributionMethod(estimator=JansenEstimator()) before the final resize *)
 Definition sobol_explain (score : list Qc -> list Qc -> Qc) (est : list Qc -> nat -> nat -> list Qc)
-  (pf : list Qc -> perturbation) (g H W C bs n : nat) (masks : list (list Qc)) (xs ts : list (list Qc)) :=
+  (pf : list Qc -> perturbation) (g H W C : nat) (bs : option nat) (n : nat) (masks : list (list Qc))
+  (xs ts : list (list Qc)) :=
   gsa_explain score (fun o => est o n (g * g)%nat) pf g H W C bs masks xs ts.
 
 (* HsicAttributionMethod before the final resize; Lof = output Gram matrix of the recorded outputs
    (exp and percentile are library calls) *)
 Definition hsic_explain (score : list Qc -> list Qc -> Qc) (gramf : list Qc -> mat) (Lof : list Qc -> mat)
-  (pf : list Qc -> perturbation) (g H W C bs ebs n : nat) (masks : list (list Qc)) (xs ts : list (list Qc)) :=
+  (pf : list Qc -> perturbation) (g H W C : nat) (bs : option nat) (ebs n : nat) (masks : list (list Qc))
+  (xs ts : list (list Qc)) :=
   gsa_explain score (fun o => hsic_map gramf ebs g masks (Lof o) n) pf g H W C bs masks xs ts.
